@@ -13,8 +13,18 @@ claim('C12', 'proof', 'Coq theorem (16-clause DFS invariant, induction on fuel a
 claim('C13', 'proof', 'Coq theorems (worklist invariant for reachability, fold invariants for construction/reversal/subgraph; axiom-free) + differential test',
       'C13_reach/_reversed/_reversed_twice/_subgraph/_clone/_mk_graph for all well-formed graphs and node sets; tie: same graph enumeration as C12 x node subsets, before/after snapshots of the Python object.',
       'Aliasing of the Python sets is monitored at run time (ids), not modelled.')
+claim('C02', 'proof', 'Coq theorem (tableau soundness via the generalised Buechi lemma, completeness by a choice-free pigeonhole over atom indices) + extracted-model differential test',
+      'C02_exact: for every well-formed total Kripke structure and every LTL formula A g the Gallina model of LTL.modelcheck (closure, X-choice atoms, tableau, self-fulfilling SCCs, '
+      'backward reachability; after fix F1) returns exactly the states all of whose infinite paths satisfy g. Tie: LTL.modelcheck vs the extracted model on every <=2-state structure x path formulas '
+      'with <=3 operators (sampled) and random <=5 states; each exclusion additionally certified by a concrete lasso evaluated by an independent path evaluator.',
+      'Known finding KF-print-a (membership by printed form) is outside the theorem: the model compares formulas structurally.')
+claim('C03', 'proof', 'Coq theorem (labelling invariant + substitution lemma + fresh-name hygiene using printer injectivity; built on C01 and C02) + extracted-model differential test',
+      'C03_exact: for every constructed Kripke structure and every CTL* state formula over identifier atoms the Gallina model of CTLS.modelcheck (innermost-first elimination of quantified '
+      'subformulas through fresh atoms on a labelled clone; CTL first, LTL tableau, E g ~> not A not g) returns exactly {s | K,s |= f}. C03_fresh_collision_refuted records why exotic atom names are excluded. '
+      'Tie: CTLS.modelcheck vs the extracted model, exhaustive small scope (sampled) + random, tagged by the back end that answered.',
+      'Known findings KF-print-a / KF-C03-a (atoms spelled like printed subformulas / fresh names) are outside the theorem and reported as KNOWN-FINDING.')
 for p, why in [
-    ('C02', 'check being assembled (LTL tableau proof in progress)'), ('C03', 'check being assembled'), ('C04', 'check being assembled'),
+    ('C04', 'check being assembled'),
     ('C06', 'check being assembled'), ('C07', 'check being assembled'), ('C08', 'check being assembled'), ('C09', 'check being assembled'),
     ('C10', 'check being assembled'), ('C11', 'check being assembled'), ('C14', 'check being assembled'), ('C15', 'check being assembled'),
     ('C16', 'check being assembled'), ('C17', 'check being assembled'), ('C18', 'check being assembled'), ('C19', 'check being assembled')]:
